@@ -1,3 +1,4 @@
+#include <hgraph/util/verif_hooks.h>
 #include <hgraph/runtime/diagnostic_path.h>
 #include <hgraph/runtime/executor.h>
 
@@ -332,11 +333,13 @@ namespace hgraph
         void realtime_mark_push_update_pending_impl(const void *, void *memory)
         {
             auto &state = realtime_storage(memory);
+            HGRAPH_VERIF_POINT("rt.mark.before_lock");
             {
                 std::lock_guard lock{state.mutex};
                 if (state.stop_requested.load(std::memory_order_acquire)) { return; }
                 state.push_update_pending = true;
             }
+            HGRAPH_VERIF_POINT("rt.mark.before_notify");
             state.condition.notify_all();
         }
 
@@ -384,6 +387,7 @@ namespace hgraph
             const DateTime next_cycle = state.evaluation_time + MIN_TD;
 
             DateTime wall_now = current_wall_time();
+            HGRAPH_VERIF_POINT("rt.wait.enter");
             {
                 std::unique_lock lock{state.mutex};
                 const auto wake_requested = [&state] {
@@ -405,6 +409,7 @@ namespace hgraph
                     if (wake_requested_before_timeout) { break; }
                 }
             }
+            HGRAPH_VERIF_POINT("rt.wait.leave");
 
             // This cycle's evaluation time, from two rules in strict
             // precedence order.
@@ -697,10 +702,12 @@ namespace hgraph
         void realtime_request_stop_impl(const void *, void *memory) noexcept
         {
             auto &state = realtime_storage(memory);
+            HGRAPH_VERIF_POINT("rt.stop.before_lock");
             {
                 std::lock_guard lock{state.mutex};
                 state.stop_requested.store(true, std::memory_order_release);
             }
+            HGRAPH_VERIF_POINT("rt.stop.before_notify");
             state.condition.notify_all();
         }
 
